@@ -155,15 +155,18 @@ def transpose : Nat → G → M G
     let (g, improved) ← transposePass g
     if improved then transpose fuel g else pure g
 
-/-- `wmedianRun`: returns (best crossings, best positions, state) -/
-def wmedianRun (maxiter : Nat) (down : Bool) (g : G) : M (Nat × Array Int × G) := do
+def positionsOf (g : G) : Array Int := g.nodes.map (·.pos)
+
+/-- the start of a run: DFS initialisation, then every layer list sorted by the positions -/
+def wmInit (down : Bool) (g : G) : M G := do
   let g ← initPositions down g
-  let g := sortLayersByPos g
-  let positions := fun (g : G) => g.nodes.map (·.pos)
-  let mut bestx ← crossingsAll g
-  let mut bestp := positions g
-  if bestx == 0 then return (bestx, bestp, g)
-  let mut g := g
+  pure (sortLayersByPos g)
+
+/-- the sweeps of a run after the initial order was found to have crossings -/
+def wmSweeps (maxiter : Nat) (bestx0 : Nat) (g0 : G) : M (Nat × Array Int × G) := do
+  let mut bestx := bestx0
+  let mut bestp := positionsOf g0
+  let mut g := g0
   let mut flipEqual := false
   let fuel := g.edges.size * g.edges.size + 4
   for i in List.range maxiter do
@@ -175,9 +178,15 @@ def wmedianRun (maxiter : Nat) (down : Bool) (g : G) : M (Nat × Array Int × G)
     let x ← crossingsAll g
     if x < bestx then
       bestx := x
-      bestp := positions g
+      bestp := positionsOf g
     if bestx == 0 then break
   pure (bestx, bestp, g)
+
+/-- `wmedianRun`: returns (best crossings, best positions, state) -/
+def wmedianRun (maxiter : Nat) (down : Bool) (g : G) : M (Nat × Array Int × G) := do
+  let g ← wmInit down g
+  let x ← crossingsAll g
+  if x == 0 then pure (0, positionsOf g, g) else wmSweeps maxiter x g
 
 /-- `execWeightedMedian` after `breakLongEdges`: returns the ordered state and the logged crossing number -/
 def orderWMedian (maxiter : Nat) (g : G) : M (G × Nat) := do
